@@ -48,6 +48,13 @@ CHECKS.update({
             "data races, goroutines and parser-cache history are outside (not applicable to this technique)", TECH),
 })
 
+CHECKS.update({
+    "C09": (B, "proof", "the grammar-level structural rules (no operator mixing, direct assignment only first, non-empty restriction list, no wildcard+relation, exactly one header, container element type) as regular-language inclusions on the ATN that the Go parser interprets, decided by z3 5.1.0 for words of any length",
+            "solver verdicts trusted; that the ANTLR runtime reports every deviation from the ATN is outside; listener-raised rejections are not yet covered", "SMT regular-language (RegLan) inclusion queries on the serialized ATN"),
+    "C19": (B, "proof", "per rule of both grammars the shallow language written in the .g4 equals the language of the rule's sub-automaton in the serialized ATN of the Go package (two RegLan emptiness queries per rule, no length bound); JS/Java/.interp ATNs compared with Go's (by per-rule language queries when arrays differ); vocabularies, modes, actions, listener callbacks compared directly",
+            "solver verdicts trusted; generated code beyond the ATN and tables is outside; JS/Java parsers are not run", "SMT regular-language (RegLan) equality queries"),
+})
+
 NOT_APPLICABLE = {
     "C17": "every clause is about gonum multigraph/topo/dot behaviour, which a hand-written SSA encoder cannot reach (reflection-based iterators); stubbing gonum would stub away the property",
 }
